@@ -33,17 +33,21 @@ type c19Spec struct {
 	Short   bool // short dialogue
 	Scanner bool // include the retention scanner (Start / Join)
 	NoSrv   bool // no protocol servers at all (hub + scanner only)
+	Prelude bool // sessions are opened (and brought to their protocol state) in the init phase
 	Bound   [2]int
 }
 
 func c19Specs() []c19Spec {
+	// cheapest first: each scenario gets an equal share of the time that is left
 	return []c19Spec{
-		{ID: "G1-smtp-session-cancel-drain", Proto: "smtp", Clients: 1, Bound: [2]int{1, 2}},
-		{ID: "G2-pop3-session-cancel-drain", Proto: "pop3", Clients: 1, Bound: [2]int{1, 2}},
 		{ID: "G3-smtp-late-dial", Proto: "smtp", Clients: 0, Late: true, Bound: [2]int{2, 3}},
 		{ID: "G4-pop3-late-dial", Proto: "pop3", Clients: 0, Late: true, Bound: [2]int{2, 3}},
-		{ID: "G5-both-two-sessions", Proto: "both", Clients: 2, Short: true, Bound: [2]int{0, 1}},
 		{ID: "G6-hub-scanner-stop", Proto: "smtp", NoSrv: true, Scanner: true, Bound: [2]int{2, 3}},
+		{ID: "G8-pop3-two-sessions-idle-and-marked", Proto: "pop3", Clients: 2, Short: true, Prelude: true, Bound: [2]int{1, 2}},
+		{ID: "G7-smtp-two-sessions-idle-and-transfer", Proto: "smtp", Clients: 2, Short: true, Prelude: true, Bound: [2]int{1, 2}},
+		{ID: "G2-pop3-session-cancel-drain", Proto: "pop3", Clients: 1, Bound: [2]int{1, 2}},
+		{ID: "G5-both-two-sessions", Proto: "both", Clients: 2, Short: true, Bound: [2]int{0, 1}},
+		{ID: "G1-smtp-session-cancel-drain", Proto: "smtp", Clients: 1, Bound: [2]int{1, 2}},
 	}
 }
 
@@ -54,6 +58,7 @@ type c19Client struct {
 	replies   []string
 	refused   bool
 	broke     string
+	idle      bool // an SMTP session that only says HELO and QUIT
 }
 
 func c19Scenario(c *fw.Ctx, sp c19Spec) schedScenario {
@@ -101,7 +106,7 @@ func c19Scenario(c *fw.Ctx, sp c19Spec) schedScenario {
 				var ths []vsched.Thread
 				// the hub must return after shutdown; it is a scheduled thread of its own only in
 				// the hub/scanner scenario, elsewhere a background goroutine of the system
-				ths = append(ths, vsched.Thread{Name: "hub", Daemon: !sp.NoSrv, F: func() { s.Hub.Start(ctx); hubReturned = true }})
+				ths = append(ths, vsched.Thread{Name: "hub", Daemon: !sp.NoSrv, Early: sp.Prelude, F: func() { s.Hub.Start(ctx); hubReturned = true }})
 				if sp.Scanner {
 					ths = append(ths, vsched.Thread{Name: "scanner", F: func() { rs.Start(ctx) }})
 					ths = append(ths, vsched.Thread{Name: "join", F: func() { <-cancelled; rs.Join(); joinReturned = true }})
@@ -113,7 +118,7 @@ func c19Scenario(c *fw.Ctx, sp c19Spec) schedScenario {
 				}
 				for _, p := range protos {
 					p := p
-					ths = append(ths, vsched.Thread{Name: p + "-start", F: func() {
+					ths = append(ths, vsched.Thread{Name: p + "-start", Early: sp.Prelude, F: func() {
 						rf := func() { close(ready[p]) }
 						if p == "smtp" {
 							s.SMTP.Start(ctx, rf)
@@ -150,56 +155,104 @@ func c19Scenario(c *fw.Ctx, sp c19Spec) schedScenario {
 				}})
 				dialogue := func(cl *c19Client) []string {
 					if cl.proto == "smtp" {
-						if sp.Short {
-							return []string{"HELO c", "MAIL FROM:<s@o.test>", "RCPT TO:<r@x.test>", "DATA", "Subject: g\r\n\r\nbody\r\n.", "QUIT"}
+						if sp.Short && cl.idle {
+							return []string{"HELO c", "QUIT"}
 						}
 						return []string{"HELO c", "MAIL FROM:<s@o.test>", "RCPT TO:<r@x.test>", "DATA", "Subject: g\r\n\r\nbody\r\n.", "QUIT"}
 					}
+					if cl.idle {
+						return []string{"USER u", "QUIT"}
+					}
 					return []string{"USER u", "PASS p", "DELE 1", "QUIT"}
+				}
+				// talk runs the given lines on an open connection (a scheduling point before each)
+				talk := func(cl *c19Client, conn net.Conn, r *bufio.Reader, lines []string, points bool) bool {
+					for _, line := range lines {
+						if points {
+							vsched.Point("client: about to send " + strings.Fields(line)[0])
+						}
+						if _, err := fmt.Fprintf(conn, "%s\r\n", line); err != nil {
+							cl.broke = "write failed before " + strings.Fields(line)[0]
+							return false
+						}
+						l, err := r.ReadString('\n')
+						if err != nil {
+							cl.broke = "connection closed instead of a reply to " + strings.Fields(line)[0]
+							return false
+						}
+						cl.replies = append(cl.replies, strings.TrimSpace(l))
+					}
+					return true
+				}
+				open := func(cl *c19Client) (net.Conn, *bufio.Reader, bool) {
+					conn, err := listeners[cl.proto].Dial()
+					if err != nil {
+						cl.refused = true
+						return nil, nil, false
+					}
+					r := bufio.NewReader(conn)
+					l, err := r.ReadString('\n')
+					if err != nil {
+						cl.broke = "connection closed before the greeting"
+						return conn, r, false
+					}
+					cl.replies = append(cl.replies, strings.TrimSpace(l))
+					mu.Lock()
+					cl.greeted = vsched.StepNo()
+					mu.Unlock()
+					return conn, r, true
 				}
 				session := func(cl *c19Client, waitFor chan struct{}) func() {
 					return func() {
 						<-waitFor
 						vsched.Point("client: about to dial " + cl.proto)
-						conn, err := listeners[cl.proto].Dial()
-						if err != nil {
-							cl.refused = true
-							return
+						conn, r, ok := open(cl)
+						if conn != nil {
+							defer conn.Close()
 						}
-						defer conn.Close()
-						r := bufio.NewReader(conn)
-						rd := func() (string, bool) {
-							l, err := r.ReadString('\n')
-							if err != nil {
-								return "", false
-							}
-							return strings.TrimSpace(l), true
-						}
-						g, ok := rd()
 						if !ok {
-							cl.broke = "connection closed before the greeting"
 							return
 						}
-						cl.replies = append(cl.replies, g)
-						mu.Lock()
-						cl.greeted = vsched.StepNo()
-						mu.Unlock()
-						for _, line := range dialogue(cl) {
-							vsched.Point("client: about to send " + strings.Fields(line)[0])
-							if _, err := fmt.Fprintf(conn, "%s\r\n", line); err != nil {
-								cl.broke = "write failed before " + strings.Fields(line)[0]
-								return
-							}
-							rep, ok := rd()
-							if !ok {
-								cl.broke = "connection closed instead of a reply to " + strings.Fields(line)[0]
-								return
-							}
-							cl.replies = append(cl.replies, rep)
+						if talk(cl, conn, r, dialogue(cl), true) {
+							mu.Lock()
+							cl.completed = vsched.StepNo()
+							mu.Unlock()
 						}
-						mu.Lock()
-						cl.completed = vsched.StepNo()
-						mu.Unlock()
+					}
+				}
+				// prelude: how many lines of the dialogue are spoken during init
+				preludeLines := func(cl *c19Client) int {
+					switch {
+					case cl.idle:
+						return 1 // HELO / USER
+					case cl.proto == "smtp":
+						return 4 // … up to DATA (354): a transfer is in progress
+					default:
+						return 3 // USER, PASS, DELE 1: a deletion is pending
+					}
+				}
+				type openSess struct {
+					cl   *c19Client
+					conn net.Conn
+					r    *bufio.Reader
+					ok   bool
+				}
+				var opened []*openSess
+				if sp.Prelude {
+					prev := init
+					init = func() {
+						prev()
+						for _, p := range protos {
+							<-ready[p]
+						}
+						for _, cl := range clients {
+							o := &openSess{cl: cl}
+							o.conn, o.r, o.ok = open(cl)
+							if o.ok {
+								o.ok = talk(cl, o.conn, o.r, dialogue(cl)[:preludeLines(cl)], false)
+							}
+							opened = append(opened, o)
+						}
 					}
 				}
 				for i := 0; i < sp.Clients; i++ {
@@ -207,9 +260,27 @@ func c19Scenario(c *fw.Ctx, sp c19Spec) schedScenario {
 						break
 					}
 					p := protos[i%len(protos)]
-					cl := &c19Client{proto: p, greeted: -1, completed: -1}
+					cl := &c19Client{proto: p, greeted: -1, completed: -1, idle: sp.Clients == 2 && len(protos) == 1 && i == 0}
 					clients = append(clients, cl)
-					ths = append(ths, vsched.Thread{Name: fmt.Sprintf("client%d-%s", i, p), F: session(cl, ready[p])})
+					if !sp.Prelude {
+						ths = append(ths, vsched.Thread{Name: fmt.Sprintf("client%d-%s", i, p), F: session(cl, ready[p])})
+						continue
+					}
+					i := i
+					ths = append(ths, vsched.Thread{Name: fmt.Sprintf("client%d-%s-rest", i, p), F: func() {
+						o := opened[i]
+						if o.conn != nil {
+							defer o.conn.Close()
+						}
+						if !o.ok {
+							return
+						}
+						if talk(cl, o.conn, o.r, dialogue(cl)[preludeLines(cl):], true) {
+							mu.Lock()
+							cl.completed = vsched.StepNo()
+							mu.Unlock()
+						}
+					}})
 				}
 				if sp.Late && len(protos) > 0 {
 					late = &c19Client{proto: protos[0], greeted: -1, completed: -1}
@@ -230,11 +301,19 @@ func c19Scenario(c *fw.Ctx, sp c19Spec) schedScenario {
 							probs = append(probs, [2]string{"open-session-cut|" + cl.proto, fmt.Sprintf("client %d (%s) had received the greeting before Drain was called but its dialogue was cut: %s; replies so far %v", i, cl.proto, cl.broke, cl.replies)})
 							continue
 						}
-						if cl.proto == "smtp" {
+						if cl.proto == "smtp" && cl.idle {
+							if len(cl.replies) != 3 {
+								probs = append(probs, [2]string{"open-session-cut|smtp", fmt.Sprintf("idle client %d: replies %v", i, cl.replies)})
+							}
+						} else if cl.proto == "smtp" {
 							ok := len(cl.replies) == 7 && strings.HasPrefix(cl.replies[5], "250") && strings.HasPrefix(cl.replies[6], "221")
 							ms, _ := st.GetMessages("r")
 							if !ok || len(ms) < 1 {
 								probs = append(probs, [2]string{"in-flight-mail-lost", fmt.Sprintf("client %d's message transfer was in progress during shutdown: replies %v, mailbox r holds %d messages", i, cl.replies, len(ms))})
+							}
+						} else if cl.idle {
+							if len(cl.replies) != 3 {
+								probs = append(probs, [2]string{"open-session-cut|pop3", fmt.Sprintf("idle client %d: replies %v", i, cl.replies)})
 							}
 						} else {
 							ms, _ := st.GetMessages("u")
@@ -315,11 +394,12 @@ func c19BlockClass(blocked []string) string {
 }
 
 func c19Run(c *fw.Ctx) {
-	for _, sp := range c19Specs() {
+	specs := c19Specs()
+	for i, sp := range specs {
 		if sp.ID == "G5-both-two-sessions" && !c.Thorough() {
 			continue // two servers × two sessions: 4.4M+ schedules already at bound 0; thorough tier only
 		}
-		exploreSched(c, c19Scenario(c, sp))
+		c.Share(len(specs)-i, func() { exploreSched(c, c19Scenario(c, sp)) })
 	}
 }
 
